@@ -47,8 +47,9 @@ out.append("")
 res = J(os.path.join(ROOT, "seeded", "RESULTS.json"), {})
 out.append("### 10.5 Which check catches which seeded change\n")
 out.append("Independent changes (written by sub-agents that saw only the property text; all confirmed: compile, 719 pinned tests pass, demonstration fails with / passes without):\n")
-out.append("| change | what it does / needs | result of `./check <ID> quick` on the changed tree | violated oracle (fingerprint) |")
-out.append("|--------|----------------------|------|------|")
+cross = J(os.path.join(ROOT, "seeded", "CROSS.json"), {})
+out.append("| change | what it does / needs | result of `./check <ID> quick` on the changed tree | violated oracle (fingerprint) | other checks that report it (of those whose anchored files it touches) |")
+out.append("|--------|----------------------|------|------|------|")
 n = c_ = 0
 for d in sorted(glob.glob(os.path.join(ROOT, "seeded", "C*", "*"))):
     m = J(os.path.join(d, "meta.json"))
@@ -56,7 +57,9 @@ for d in sorted(glob.glob(os.path.join(ROOT, "seeded", "C*", "*"))):
     name = "seeded/%s/%s" % (os.path.basename(os.path.dirname(d)), os.path.basename(d))
     r = res.get(name, {})
     n += 1; c_ += r.get("verdict") == "caught"
-    out.append("| %s | %s | %s | %s |" % (name, (m.get("summary", "")[:300] + " NEEDS: " + m.get("needs", "")[:200]).replace("|", "/").replace("\n", " "), r.get("verdict", "not run") + (" (%s)" % r["tier"] if r.get("tier") and r.get("tier") != "quick" else ""), ", ".join("`%s`" % f for f in r.get("fingerprints", [])[:2])))
+    cr = cross.get(name, {})
+    also = ", ".join(sorted(k for k, v in cr.items() if v == "caught")) or ("-" if cr else "not run")
+    out.append("| %s | %s | %s | %s | %s |" % (name, (m.get("summary", "")[:300] + " NEEDS: " + m.get("needs", "")[:200]).replace("|", "/").replace("\n", " "), r.get("verdict", "not run") + (" (%s)" % r["tier"] if r.get("tier") and r.get("tier") != "quick" else ""), ", ".join("`%s`" % f for f in r.get("fingerprints", [])[:2]), also))
 out.append("\n%d of %d independent changes are caught.\n" % (c_, n))
 own = {}
 for k, r in res.items():
